@@ -14,6 +14,7 @@ Not decided: shortest-form heads, no trailing bytes, COSE key order (cbor-smol, 
 """
 from . import hirq as H
 from . import tables as T
+from . import wire as W
 from .facts import SER
 
 LEVEL = "other"
@@ -61,7 +62,7 @@ def classify_ser(F, path):
         return "indexed", fn
     if any(H.conversion_impl(n) == "<&str as core::convert::From<%s>>" % path for n in H.walk(fn["body"])):
         return "str-enum", fn
-    if "serde_core::ser::Serializer::serialize_seq" in calls:
+    if "serde_core::ser::Serializer::serialize_seq" in calls or "serde_core::ser::Serializer::collect_seq" in calls:
         return "seq", fn
     # untagged enum: every arm forwards the payload to Serialize::serialize with the same serializer
     b = H.strip_block(fn["body"])
@@ -132,6 +133,8 @@ def run(ctx):
         for f in F.fns:
             for c, _, _ in T.ordered_calls(f["body"]):
                 cal = c.get("callee")
+                if cal == "serde_core::ser::Serializer::collect_seq":
+                    n_hdr += 1      # serde's provided method opens the sequence with the iterator's exact size hint (checked by seq-count)
                 if cal in ("serde_core::ser::Serializer::serialize_map", "serde_core::ser::Serializer::serialize_seq"):
                     n_hdr += 1
                     a = H.strip_block(H.call_args(c)[1])
@@ -144,8 +147,9 @@ def run(ctx):
         for f in F.fns:
             im = f.get("impl") or {}
             if im.get("trait") == SER and f["name"] == "serialize" and im.get("impl_pv") == "user":
-                if any(c.get("callee") == "serde_core::ser::Serializer::serialize_seq" for c, _, _ in T.ordered_calls(f["body"])):
-                    ok, why, info = T.seq_ser_check(f)
+                if any(c.get("callee") in ("serde_core::ser::Serializer::serialize_seq", "serde_core::ser::Serializer::collect_seq") for c, _, _ in T.ordered_calls(f["body"])):
+                    se = W.seq_emitter(F, f)
+                    ok, why = se["ok"], se.get("why", "")
                     ctx.oblige("C03|seq-count|" + (im["self_ty"].get("path") or im["self_ty"]["s"]), ok,
                                "%s: %s — the array header would not match its contents" % (im["self_ty"]["s"], why), cfg=cfg, where=f["sp"])
         # the extension map embedded in authenticator data is one complete item: it is appended by cbor_serialize_to and
@@ -228,9 +232,11 @@ def run(ctx):
                             stack.append(fl["ty"])
             elif kind == "seq":
                 # hand-written sequence: what is passed to serialize_element
-                for c, _, _ in T.ordered_calls(fn["body"]):
-                    if c.get("callee") == "serde_core::ser::SerializeSeq::serialize_element":
-                        vt = (c.get("targs") or [None, None])[1]
+                se = W.seq_emitter(F, fn)
+                el = se.get("elem") if se.get("ok") else None
+                vts = [el[1]] if el and el[0] in ("struct", "ctor") else [None]
+                for vt in vts:
+                    if True:
                         if vt in F.adts:
                             stack.append({"k": "adt", "path": vt, "krate": F.adts[vt]["krate"], "args": [], "s": vt})
                         else:
